@@ -91,6 +91,7 @@ type input struct {
 	Delays   [][]int    `json:"delays"` // per backend: microseconds per SendEvent call, cyclic
 	Compress string     `json:"compress"`
 	Fails    [][]int    `json:"fails"`     // per backend, cyclic per SendEvent call: 0 = nil, 1 = an error, 2 = context.Canceled, 3 = context.DeadlineExceeded
+	Overlap  bool       `json:"overlap"`   // WaitForEvents is also called from another goroutine while DispatchEvent calls are in progress
 	TapDelay []int      `json:"tap_delay"` // microseconds the pass-through handler takes per event, cyclic
 	Cancel   int        `json:"cancel"`    // > 0: cancel the dispatch contexts after that many microseconds
 }
@@ -202,6 +203,8 @@ func (l *tlog) coq() string {
 // capturing backend
 
 type shared struct {
+	gate     chan struct{} // overlap runs: the first send of event [plug] on backend 0 waits for it
+	plug     int
 	log      *tlog
 	inflight int64 // SendEvent calls in progress, all backends
 	maxInfl  int64
@@ -238,6 +241,12 @@ func (b *capBackend) SendEvent(ctx context.Context, e *gostatsd.Event) error {
 	k := b.n
 	b.n++
 	b.mu.Unlock()
+	if b.sh.gate != nil && b.idx == 0 && id == b.sh.plug {
+		select {
+		case <-b.sh.gate:
+		case <-time.After(3 * time.Second):
+		}
+	}
 	if len(b.delays) > 0 {
 		if d := b.delays[k%len(b.delays)]; d > 0 {
 			time.Sleep(time.Duration(d) * time.Microsecond)
@@ -269,11 +278,12 @@ func (b *capBackend) SendEvent(ctx context.Context, e *gostatsd.Event) error {
 // pass-through handler in front of the tail's TagHandler
 
 type tap struct {
-	next    gostatsd.PipelineHandler
-	log     *tlog
-	entered int64
-	delays  []int
-	n       int64
+	next     gostatsd.PipelineHandler
+	log      *tlog
+	entered  int64
+	entering int64
+	delays   []int
+	n        int64
 }
 
 func (t *tap) EstimatedTags() int { return t.next.EstimatedTags() }
@@ -303,6 +313,7 @@ func (t *tap) DispatchEvent(ctx context.Context, e *gostatsd.Event) {
 		}
 	}
 	t.log.add(obs{K: "enter", E: id, Rel: rel})
+	atomic.AddInt64(&t.entering, 1)
 	t.next.DispatchEvent(ctx, e)
 	atomic.AddInt64(&t.entered, 1)
 	t.log.add(obs{K: "entered", E: id})
@@ -430,7 +441,10 @@ func runCase(in input) []hlib.Case {
 func runCase1(in input) (hlib.Case, *hlib.Case) {
 	logrus.SetOutput(io.Discard)
 	var monitors []string
+	var monMu sync.Mutex
 	mon := func(f string, a ...interface{}) {
+		monMu.Lock()
+		defer monMu.Unlock()
 		if len(monitors) < 10 {
 			monitors = append(monitors, fmt.Sprintf(f, a...))
 		}
@@ -529,11 +543,79 @@ func runCase1(in input) (hlib.Case, *hlib.Case) {
 	badTitle := map[string]bool{} // ... their titles
 	tlo := time.Now().Unix()
 
+	// overlap runs: item 0 carries the plug event, whose first send is held at the gate; the other
+	// items start once that send has begun; when every DispatchEvent call has entered the tail (they
+	// now wait for tokens behind slow backends) WaitForEvents is called from another goroutine and
+	// the gate is opened.  sync.WaitGroup's own "reused before previous Wait has returned" panic is
+	// raised in the waiting goroutine and only tells that the counter passed through zero: recovered.
+	startRest := make(chan struct{})
+	coordDone := make(chan struct{})
+	overlapped := false
+	coordinate := func(plug int, total int, h gostatsd.PipelineHandler) {
+		defer close(coordDone)
+		poll := func(cond func() bool) bool {
+			for i := 0; i < 4000; i++ {
+				if cond() {
+					return true
+				}
+				time.Sleep(500 * time.Microsecond)
+			}
+			return false
+		}
+		called := poll(func() bool {
+			log.mu.Lock()
+			defer log.mu.Unlock()
+			for _, o := range log.evs {
+				if o.K == "call" && o.E == plug && o.B == 0 {
+					return true
+				}
+			}
+			return false
+		})
+		close(startRest)
+		if !called {
+			close(sh.gate)
+			return
+		}
+		poll(func() bool { return atomic.LoadInt64(&tp.entering) >= int64(total) })
+		time.Sleep(300 * time.Microsecond)
+		waitDone := make(chan struct{})
+		go func() {
+			defer close(waitDone)
+			defer func() { recover() }()
+			log.add(obs{K: "waitcall"})
+			h.WaitForEvents()
+			log.add(obs{K: "waitret"})
+			overlapped = true
+		}()
+		time.Sleep(200 * time.Microsecond)
+		close(sh.gate)
+		select {
+		case <-waitDone:
+		case <-time.After(hangAfter):
+			mon("WaitForEvents, called while DispatchEvent calls were in progress, did not return within 4s")
+		}
+	}
+	if !in.Overlap {
+		close(startRest)
+		close(coordDone)
+	}
+
 	if in.Mode == "ingest" {
 		nAccepted = len(in.Msgs)
 		groups := in.Groups
 		if groups < 1 {
 			groups = 1
+		}
+		if in.Overlap {
+			groups = len(in.Msgs)
+			if len(in.Msgs) > 0 && in.NB > 0 {
+				sh.gate, sh.plug = make(chan struct{}), titleID(in.Msgs[0].Title)
+				go coordinate(sh.plug, nAccepted, tp)
+			} else {
+				close(startRest)
+				close(coordDone)
+			}
 		}
 		var swg sync.WaitGroup
 		for g := 0; g < groups; g++ {
@@ -541,6 +623,9 @@ func runCase1(in input) (hlib.Case, *hlib.Case) {
 			go func(g int) {
 				defer swg.Done()
 				for i := g; i < len(in.Msgs); i += groups {
+					if i > 0 {
+						<-startRest
+					}
 					m := in.Msgs[i]
 					msg := &pb.EventV2{Title: m.Title, Text: m.Text, DateHappened: m.Date, Hostname: m.Hostname, AggregationKey: m.AggKey,
 						SourceTypeName: m.SrcType, Tags: m.Tags, SourceIP: m.SourceIP, Priority: pb.EventV2_EventPriority(m.Priority), Type: pb.EventV2_AlertType(m.Type)}
@@ -570,6 +655,9 @@ func runCase1(in input) (hlib.Case, *hlib.Case) {
 		parsers := in.Parsers
 		if parsers < 1 {
 			parsers = 1
+		}
+		if in.Overlap && parsers < len(in.Dgs) {
+			parsers = len(in.Dgs) // every DispatchEvent call in its own goroutine, as the HTTP handlers do
 		}
 		parser := statsd.NewDatagramParser(inCh, in.NS, false, 0, head, 0, false, quiet)
 		for p := 0; p < parsers; p++ {
@@ -602,6 +690,16 @@ func runCase1(in input) (hlib.Case, *hlib.Case) {
 		nLines = pos
 		var done sync.WaitGroup
 		var swg sync.WaitGroup
+		if in.Overlap {
+			groups = len(in.Dgs)
+			if len(in.Dgs) > 0 && len(ids[0]) > 0 && in.NB > 0 {
+				sh.gate, sh.plug = make(chan struct{}), ids[0][0]
+				go coordinate(sh.plug, nAccepted, head)
+			} else {
+				close(startRest)
+				close(coordDone)
+			}
+		}
 		if in.Cancel > 0 {
 			go func() {
 				time.Sleep(time.Duration(in.Cancel) * time.Microsecond)
@@ -614,6 +712,9 @@ func runCase1(in input) (hlib.Case, *hlib.Case) {
 			go func(g int) {
 				defer swg.Done()
 				for i := g; i < len(in.Dgs); i += groups {
+					if i > 0 {
+						<-startRest
+					}
 					dg := in.Dgs[i]
 					if dg.S < 0 || dg.S >= len(in.Senders) {
 						continue
@@ -644,6 +745,37 @@ func runCase1(in input) (hlib.Case, *hlib.Case) {
 		}
 		if !wt(func() { swg.Wait(); done.Wait() }) {
 			mon("the parsers did not take / finish every datagram within 4s")
+		}
+	}
+
+	wt(func() { <-coordDone })
+	if overlapped {
+		// a send of e had started before that call: eventWg.Add(len(backends)) for e had happened, so the
+		// call may only have returned after ALL sends of e
+		log.mu.Lock()
+		wc, wr := -1, -1
+		for i, o := range log.evs {
+			if o.K == "waitcall" && wc < 0 {
+				wc = i
+			}
+			if o.K == "waitret" && wr < 0 {
+				wr = i
+			}
+		}
+		started, rets := map[int]bool{}, map[int]int{}
+		for i, o := range log.evs {
+			if o.K == "call" && i < wc {
+				started[o.E] = true
+			}
+			if o.K == "ret" && i < wr {
+				rets[o.E]++
+			}
+		}
+		log.mu.Unlock()
+		for e := range started {
+			if rets[e] != in.NB {
+				mon("WaitForEvents, called while DispatchEvent calls were in progress, returned when event E%d had completed %d of its %d sends although one of them had started before the call", e, rets[e], in.NB)
+			}
 		}
 	}
 
@@ -944,6 +1076,12 @@ func genCase(r *hlib.Rand, k int) input {
 		if k%20 == 11 {
 			in.Stream = "cancel"
 		}
+		if k%20 == 2 {
+			in.Stream = "overlap"
+		}
+	}
+	if k%20 == 19 {
+		in.Stream = "overlap" // ingest
 	}
 	in.NB = hlib.Pick(r, []int{0, 1, 1, 2, 2, 2, 3, 3})
 	in.Cap = r.Range(1, 4)
@@ -976,6 +1114,15 @@ func genCase(r *hlib.Rand, k int) input {
 		}
 		in.Cancel = hlib.Pick(r, []int{50, 200, 600, 1500})
 	}
+	if in.Stream == "overlap" {
+		// a saturated semaphore behind slow backends, every DispatchEvent call in its own goroutine
+		in.Overlap, in.Cloud, in.TapDelay = true, false, nil
+		in.NB, in.Cap = r.Range(2, 3), r.Range(1, 2)
+		in.Delays = make([][]int, in.NB)
+		for b := range in.Delays {
+			in.Delays[b] = []int{hlib.Pick(r, []int{300, 700, 1500}), hlib.Pick(r, []int{100, 400})}
+		}
+	}
 	in.Senders = genSenders(r, in.Cloud)
 	var extra []string
 	extra = append(extra, in.Static...)
@@ -1007,12 +1154,15 @@ func genCase(r *hlib.Rand, k int) input {
 	for d := 0; d < ndg; d++ {
 		dg := dgIn{S: r.Intn(len(in.Senders))}
 		nl := r.Range(1, 4)
+		if in.Overlap {
+			nl = 1
+		}
 		for l := 0; l < nl; l++ {
 			var line string
 			switch {
 			case in.Stream == "odd" && r.Chance(1, 2):
 				line = oddLine(r, id)
-			case r.Chance(1, 12):
+			case r.Chance(1, 12) && !in.Overlap:
 				line = fmt.Sprintf("m%d:%d|c", id, r.Intn(9))
 			default:
 				line = eventLine(r, id, utf8ok, extra)
